@@ -352,9 +352,10 @@ class Check:
                   coverage=cov, assumptions=self.assumptions, wall_s=round(wall, 2),
                   violations=len(self.violations))
         os.makedirs(os.path.join(ROOT, "evidence"), exist_ok=True)
-        with open(os.path.join(ROOT, "evidence", self.pid + ".json"), "w") as fh:
-            json.dump(ev, fh, indent=1, sort_keys=True)
-            fh.write("\n")
+        if not getattr(self, "replay_mode", False):
+            with open(os.path.join(ROOT, "evidence", self.pid + ".json"), "w") as fh:
+                json.dump(ev, fh, indent=1, sort_keys=True)
+                fh.write("\n")
         for h in self.known_hits:
             print("KNOWN-FINDING: property=%s %s [%s]" % (self.pid, h["what"], h["key"]))
         rc = 0
